@@ -43,10 +43,11 @@ def lattice_spec(
     n=4, moves=None, workers=1, steps=20, seed=1, cap=None, wall=-1, n_jumps=2, maxlength=400,
     allowmaxlength=False, delete_old=False, delete_old_all=False, subcycles=1, screen=0,
     engine="lattice", ensemble_engines=None, extra_engines=None, zeroswap=None, origin=0.0, lm1=None, keep_side=False, pattern=False, quantis=False, int_toml=False,
+    load_dir=None, data_dir=None,
 ):
     moves = list(moves) if moves else ["sh"] * n
     return dict(
-        origin=origin, lm1=lm1, keep_side=keep_side, pattern=pattern, quantis=quantis, int_toml=int_toml,
+        origin=origin, lm1=lm1, keep_side=keep_side, pattern=pattern, quantis=quantis, int_toml=int_toml, load_dir=load_dir, data_dir=data_dir,
         n=n, moves=moves, workers=workers, steps=steps, seed=seed, cap=cap, wall=wall, n_jumps=n_jumps,
         maxlength=maxlength, allowmaxlength=allowmaxlength, delete_old=delete_old,
         delete_old_all=delete_old_all, subcycles=subcycles, screen=screen, engine=engine,
@@ -87,14 +88,14 @@ def lattice_config(spec):
             "interfaces": [x - origin for x in lattice_interfaces(n)],
             "steps": spec["steps"],
             "seed": spec["seed"],
-            "load_dir": "load",
+            "load_dir": spec.get("load_dir") or "load",
             "shooting_moves": spec["moves"],
             "tis_set": tis_set,
         },
         "engine": eng,
         "orderparameter": {"class": "LatticeOP", "module": "latticeeng.py", "origin": origin},
         "output": {
-            "data_dir": "./",
+            "data_dir": spec.get("data_dir") or "./",
             "screen": spec["screen"],
             "pattern": bool(spec.get("pattern", False)),
             "delete_old": spec["delete_old"],
@@ -162,7 +163,9 @@ def make_rundir(spec, root=None):
         tomli_w.dump(lattice_config(spec), fh)
     shutil.copy(os.path.join(HERE, "engines", "latticeeng.py"), os.path.join(d, "latticeeng.py"))
     for i, orders in enumerate(lattice_start_orders(spec["n"])):
-        write_load_path(os.path.join(d, "load"), i, orders, origin=float(spec.get("origin", 0.0) or 0.0))
+        write_load_path(os.path.join(d, spec.get("load_dir") or "load"), i, orders, origin=float(spec.get("origin", 0.0) or 0.0))
+    if spec.get("data_dir"):  # the directory for the data file is the user's to provide
+        os.makedirs(os.path.join(d, spec["data_dir"]), exist_ok=True)
     return d
 
 
@@ -925,8 +928,15 @@ def _segment_child(seg, flags, carry):
     if state is not None:
         out["cstep_end"] = state.cstep
         out["tsteps"] = state.tsteps
-        out["live"] = state.live_paths()
-        out["locked_mem"] = [[list(l[0]), list(l[1])] for l in state.locked]
+        try:
+            out["live"] = state.live_paths()
+            out["locked_mem"] = [[list(l[0]), list(l[1])] for l in state.locked]
+        except Exception as exc:  # noqa: BLE001
+            # the sampler's own accessors fail on the state the run left behind
+            import traceback
+
+            if not out.get("exc"):
+                out["exc"] = ("final-state", type(exc).__name__, str(exc)[:500], traceback.format_exc()[-3000:])
     return out
 
 
